@@ -79,6 +79,20 @@ reg("C11", "differential runtime monitor: twin executions of the real learn()/it
     "Trusts XLA CPU determinism per compiled program; observers change the compiled program so bit-equality is not demanded there (1 ulp "
     "differences were measured), a key-stream perturbation moves parameters by the order of training itself and flips discrete history.")
 
+reg("C15", "reference-model monitor: real log_prob/prob/sample/mode/entropy of all seven distribution classes judged by float64 quadrature, enumeration of discrete supports, exact KS / chi-square tests and Monte-Carlo entropy",
+    "Held on every parameterisation explored (apart from the listed known finding): prob = exp(log_prob); enumerated discrete supports and harness-side "
+    "quadrature of the real density give total mass 1; samples and mode lie in the support; sample_and_log_prob is consistent; samples follow the "
+    "integrated real density (KS / chi-square at 1e-6..1e-7 per case); entropy = -E[log p] where defined; product laws equal the sums over "
+    "independently built components in flat and sequence form, eagerly and under jit+vmap. Exploration over sampled parameters.",
+    "Trusts NumPy/SciPy float64 (quadrature, kstwo, chi2); saturating / float32-unresolved squashed laws get only the local relations; density "
+    "exactly at the bounds, +inf Bernoulli logits and unnormalised probs are excluded as ambiguous.")
+reg("C18", "round-trip monitor: real serialize/deserialize of every policy class on generated spaces/architectures/path spellings, leaves compared bit for bit and outputs on 64 observations; mismatch pairs must raise",
+    "Held on every case explored: every policy class x supported space kind x architecture x perturbed/special parameter values x 12 path spellings "
+    "round-trips to bit-identical leaves and identical actions/values/log-probs/q-values; every pair of policies with different leaf shapes raises on "
+    "load (incl. files deeper than the skeleton with coinciding leading shapes); different names never overwrite each other. Exploration over "
+    "sampled configurations.",
+    "Trusts the filesystem and jax.effects_barrier() for the debug-callback write; dotted file names are read as 'path spellings without the .eqx suffix'.")
+
 
 def main():
     props = [json.loads(l) for l in (ROOT / "properties.jsonl").read_text().splitlines() if l.strip()]
